@@ -129,8 +129,13 @@ class Com():
             })
 
         def add_str(s):
-            assert len(lines) > 0
-            lines[-1]['str'] += ';'
+            # Append to the last line of the command itself: after a while
+            # loop the last line is a verification condition.
+            for line in reversed(lines):
+                if line['ty'] == 'com':
+                    line['str'] += s
+                    return
+            raise AssertionError("add_str")
 
         def rec(cmd):
             nonlocal indent
